@@ -838,6 +838,10 @@ func confirmAndMinimise(b *built, m *meta.Check, prop, tier string, f *found) (*
 	class := f.viol.Class
 	// 1. re-execute the seed alone (random scheduler) with incremental tracing
 	eo := evalSpec(b, m, RunSpec{Property: prop, Seed: f.seed, Index: f.index, Tier: tier}, class, true)
+	// runs with concurrent dispatch are order-dependent inside a step: give them a few attempts
+	for try := 0; eo.viol == nil && try < 4; try++ {
+		eo = evalSpec(b, m, RunSpec{Property: prop, Seed: f.seed, Index: f.index, Tier: tier}, class, true)
+	}
 	if eo.viol == nil {
 		// crash classes can differ slightly between executions; accept any crash for a crash
 		if f.crash {
@@ -854,6 +858,9 @@ func confirmAndMinimise(b *built, m *meta.Check, prop, tier string, f *found) (*
 	rp := &Replay{Property: prop, Engine: m.Engine, Seed: f.seed, Tier: tier, Cfg: cfg, Actions: acts, Violation: *eo.viol, Crash: eo.crash, OrigLen: len(acts), RepoRev: repoRev()}
 	if cfg == nil {
 		rp.Note = "configuration regenerated from the seed on replay"
+	}
+	if isKnown(loadKnown(), prop, rp.Violation.Class) != nil {
+		return rp, true // a listed finding needs no minimised replay
 	}
 	// 2. the explicit action list must reproduce on its own
 	e2 := evalSpec(b, m, RunSpec{Property: prop, Seed: f.seed, Index: f.index, Tier: tier, Cfg: cfg, Actions: acts, Scripted: true, Lenient: true}, class, false)
